@@ -2,6 +2,7 @@ import CV.Proofs.InvWaitMain
 import CV.Proofs.InvWait2Wit
 import CV.Proofs.InvWait2Count
 import CV.Proofs.InvWait2Tasks
+import CV.Proofs.InvTasksOwn2
 /-
 C06 — call()/wait() resume the caller exactly once with the result, leaving no residue.
 
@@ -443,5 +444,52 @@ theorem transient_tasks_by_phase (s0 : St) (hi : W6InitWait s0) (c : Cfg) (h : W
   · obtain ⟨a, b⟩ := w6_wait_task_needs_flag (h.cinv hi) x t ht w hg
     exact ⟨w6b_wait_task_has_parent hi h x t ht w hg, a, b⟩
   · exact ⟨h.excFin hi g w b hg, (h.w6b_excInv hi g w b hg).2⟩
+
+
+/-! ## Part 5 (with the task accounting of C04, CV/Proofs/InvTasks*.lean): the resumption task has a parent -/
+
+/-- **caller_completes**, PARTIAL, one hypothesis less.  In a session guarded by the two real restrictions of the task
+    accounting (`T46ReachM2`: an admissible session on which no handler / task re-enters the task loop and no step changes the
+    root of a component whose task loop is active), the task held by a `.ptBody r t` frame is still registered (`T46Inv`: at most
+    one task is in flight and it is in the task set of its component), hence - being the task of a waitEvent generator - it HAS a
+    parent `p` (`transient_tasks_by_phase`).  So the hypothesis `t.parent ≠ none` of `caller_completes_partial` is gone:
+    the wait state has recorded an event `src`, the task has a parent `p`, and if `p` is a live user generator then after the step
+    `p` is running, the resumption task is erased and the log gains exactly `.resumed pe ph src value errors`.
+    STILL OPEN: "`p` IS a live user generator".  It needs the per-generator ownership count (every user generator is held by at most
+    one of: its own task entry, a parent field of a task, a pending wait state, a `.ptParent` frame) on top of `T46Inv`; the
+    accounting invariant bounds `waitingHandlers`, it does not yet say who holds a generator. -/
+theorem caller_completes_parent_partial (s0 : St) (h0 : T46Init s0) (hi : W6InitWait s0) (hq : T46InitQ s0) (c : Cfg)
+    (h : T46ReachM2 s0 c) (w r : Nat) (t : Task) (k : List Frame) (hs : c.stack = .ptBody r t :: k) (hx : c.exn = none)
+    (hg : c.st.gen t.g = .wait w)
+    (hok : (c.st.removeHandler (c.st.wait w).hDone (some ((c.st.wait w).evName.child sfxDone))).1 = true) :
+    t ∈ (c.st.comp r).tasks ∧ c.st.rootOf r = r ∧
+    ∃ src p, (c.st.wait w).event = some src ∧ t.parent = some p ∧
+      ∀ pe ph o rest st pc sd, c.st.gen p = .user pe ph o rest st pc sd →
+        (step c).stack = .stepGen p :: .ptParent r t p false :: k ∧ (step c).exn = none ∧
+        (step c).st.gen p = .user pe ph o rest (st + 1) pc true ∧
+        (∀ x, ((step c).st.comp x).tasks =
+          if x = c.st.rootOf r then (c.st.comp x).tasks.erase t else (c.st.comp x).tasks) ∧
+        (step c).st.log = .resumed pe ph src (c.st.ev src).val.view (c.st.ev src).val.errors :: c.st.log := by
+  have hinv := (h.all h0 hi hq).2.1
+  have hsh := hinv.shape
+  rw [hs] at hsh
+  have hmem := hsh.1.2
+  have hroot := (T46Shape.under hsh.1.1 hsh.2).1
+  have hpar := w6b_wait_task_has_parent hi h.admissible r t hmem w hg
+  obtain ⟨src, hsrc, hrest⟩ := caller_completes_partial s0 hi c h.admissible w r t k hs hx hg hok
+  cases hp : t.parent with
+  | none => rw [hp] at hpar; cases hpar
+  | some p => exact ⟨hmem, hroot, src, p, hsrc, rfl, hrest p hp⟩
+
+/-- non-vacuity: sessions guarded by the two restrictions exist from `exampleInit` -/
+example : T46ReachM2 exampleInit (startOf (envChange exampleInit 0 []) (.tick 0)) := T46ReachM2.init 0 [] (.tick 0) trivial
+example : T46Init exampleInit := by
+  refine ⟨fun x => ?_, rfl, fun e => ?_⟩
+  · rcases x with _ | x <;> simp [exampleInit, St.comp, dfltComp]
+  · have : exampleInit.ev e = dfltEv := by unfold St.ev; simp [exampleInit]
+    rw [this]; decide
+example : T46InitQ exampleInit :=
+  T46InitQ.of_empty _ (fun x => by rcases x with _ | x <;> simp [exampleInit, St.comp, dfltComp, EQ])
+    (fun i tm h => by simp [exampleInit] at h)
 
 end CV.C06
